@@ -416,7 +416,7 @@ pub fn nested_container_programs() -> Vec<String> {
     out
 }
 
-fn check_nested(ctx: &Ctx, src: &str, max_width: usize) {
+fn check_nested(ctx: &Ctx, src: &str, max_width: usize, class: &'static str) {
     if parse_program(src, true).is_err() {
         ctx.outcome("nested-container-input-unparsable");
         return;
@@ -432,7 +432,7 @@ fn check_nested(ctx: &Ctx, src: &str, max_width: usize) {
         match fmt_lib(src, w) {
             Ok(out) => {
                 if seen.insert(out.clone()) {
-                    judge(ctx, "lib", src, &placed, &out, w, "nested-container");
+                    judge(ctx, "lib", src, &placed, &out, w, class);
                 }
             }
             Err(e) => ctx.violation(Violation { kind: "format-fails".into(), class: "nested-container".into(), input: src.to_string(), expected: "formatted text".into(), observed: e, case: json!({"src": src, "width": w, "path": "lib"}) }),
@@ -440,9 +440,77 @@ fn check_nested(ctx: &Ctx, src: &str, max_width: usize) {
     }
     ctx.count(1);
     match run_cli_format(src) {
-        Ok(out) => judge(ctx, "cli", src, &placed, &out, None, "nested-container"),
+        Ok(out) => judge(ctx, "cli", src, &placed, &out, None, class),
         Err(e) => ctx.violation(Violation { kind: "format-fails".into(), class: "nested-container".into(), input: src.to_string(), expected: "blots --format succeeds".into(), observed: e, case: json!({"src": src, "width": null, "path": "cli"}) }),
     }
+}
+
+/// Size family: wide and long constructs (items, entries, arguments, parameters, statements, terms,
+/// nesting levels, characters) at sizes small alphabets never reach; each once plain and once with an
+/// end-of-line comment on every 7th element and an own-line comment before every 11th.
+pub fn size_family(thorough: bool) -> (Vec<String>, Vec<String>) {
+    let sizes: &[usize] = if thorough { &[9, 10, 13, 21, 37, 38, 64, 100, 257] } else { &[10, 38, 100] };
+    let mut plain: Vec<String> = vec![];
+    let mut with_comments: Vec<String> = vec![];
+    for &n in sizes {
+        let item = |i: usize| match i % 4 {
+            0 => format!("item{}", i),
+            1 => format!("{}", i * 3),
+            2 => format!("\"s{}\"", i),
+            _ => format!("f{}({})", i, i),
+        };
+        // multi-line container body with optional comments; `sep` ends every element line
+        let body = |elems: &[String], sep: &str, commented: bool| -> String {
+            let mut t = String::new();
+            for (i, e) in elems.iter().enumerate() {
+                if commented && i % 11 == 5 {
+                    t.push_str(&format!("  // before {}\n", i));
+                }
+                t.push_str("  ");
+                t.push_str(e);
+                t.push_str(sep);
+                if commented && i % 7 == 3 {
+                    t.push_str(&format!(" // after {}", i));
+                }
+                t.push('\n');
+            }
+            t
+        };
+        let items: Vec<String> = (0..n).map(item).collect();
+        let entries: Vec<String> = (0..n).map(|i| if i % 5 == 4 { format!("\"key {}\": {}", i, item(i)) } else { format!("k{}: {}", i, item(i)) }).collect();
+        let stmts: Vec<String> = (0..n).map(|i| format!("v{} = {}", i, item(i))).collect();
+        for commented in [false, true] {
+            let mut progs: Vec<String> = vec![];
+            progs.push(format!("xs = [\n{}]", body(&items, ",", commented)));
+            progs.push(format!("r = {{\n{}}}", body(&entries, ",", commented)));
+            progs.push(format!("d = do {{\n{}  return v{}\n}}", body(&stmts, "", commented), n - 1));
+            progs.push(format!("{}output last = v{}", body(&stmts, "", commented).replace("\n  ", "\n").trim_start_matches(' ').to_string(), n - 1));
+            if !commented {
+                progs.push(format!("c = g({})", items.join(", ")));
+                progs.push(format!("l = ({}) => p0", (0..n).map(|i| format!("p{}", i)).collect::<Vec<_>>().join(", ")));
+                let ops = ["+", "*", "-", "/", "and", "==", "??", "^", "via", "<"];
+                let mut chain = String::from("a0");
+                for i in 1..n {
+                    chain.push_str(&format!(" {} a{}", ops[i % ops.len()], i));
+                }
+                progs.push(format!("e = {}", chain));
+                progs.push(format!("s = \"{}\"", "abc \u{e9}".repeat(n)));
+                let depth = n.min(64);
+                progs.push(format!("n1 = {}x{}", "[".repeat(depth), "]".repeat(depth)));
+                progs.push(format!("n2 = {}x{}", "f(".repeat(depth), ")".repeat(depth)));
+                progs.push(format!("n3 = {}x{}", "{k: ".repeat(depth), "}".repeat(depth)));
+                progs.push(format!("n4 = {}x", (0..depth).map(|i| format!("p{} => ", i)).collect::<String>()));
+                progs.push(format!("n5 = {}x{}", "if c then ".repeat(depth.min(24)), " else y".repeat(depth.min(24))));
+                progs.push(format!("n6 = {}x{}", "(1 + ".repeat(depth), ")".repeat(depth)));
+            }
+            if commented {
+                with_comments.extend(progs);
+            } else {
+                plain.extend(progs);
+            }
+        }
+    }
+    (plain, with_comments)
 }
 
 /// Every commented program of the single-slot, pair and all-slots families (used by C07/C08).
@@ -528,7 +596,10 @@ pub fn run(ctx: &Ctx, replay: Option<&J>) -> i32 {
         check_case(ctx, &ts[j.t], &j.chosen, j.double, max_width);
     });
     let nested = nested_container_programs();
-    par_for(nested.len(), |i| check_nested(ctx, &nested[i], max_width));
+    par_for(nested.len(), |i| check_nested(ctx, &nested[i], max_width, "nested-container"));
+    let sized: Vec<String> = size_family(thorough).1;
+    par_for(sized.len(), |i| check_nested(ctx, &sized[i], 120, "size-family"));
+    ctx.set("size_family_programs", json!(sized.len()));
     ctx.set("nested_container_programs", json!(nested.len()));
     ctx.require_outcome("nested-container-case", 300);
     crate::proc::cleanup_scratch();
@@ -545,7 +616,7 @@ pub fn run(ctx: &Ctx, replay: Option<&J>) -> i32 {
     finish(
         ctx,
         "exploration",
-        "20 line templates (statements, lists with/without trailing comma, records, do-blocks, nested containers, silent-NEWLINE positions, empty containers) x comment slots (end of line / own line, annotated with the placement kind): the empty set, every single slot (also doubled), every pair, thorough: every triple, all slots, all slots doubled x every width 1..45/70 + default through format_blots (native shim) and once through blots --format; comment sequences extracted by an independent quote-aware scan; distinct = distinct commented sources",
+        "20 line templates (statements, lists with/without trailing comma, records, do-blocks, nested containers, silent-NEWLINE positions, empty containers) x comment slots (end of line / own line, annotated with the placement kind): the empty set, every single slot (also doubled), every pair, thorough: every triple, all slots, all slots doubled x every width 1..45/70 + default through format_blots (native shim) and once through blots --format; comment sequences extracted by an independent quote-aware scan; plus a size family (lists, records, do-blocks and statement sequences of 10 / 38 / 100 (thorough 9..257) elements with an end-of-line comment on every 7th and an own-line comment before every 11th); distinct = distinct commented sources",
         true,
         None,
     )
